@@ -89,14 +89,14 @@ func NewWireEnv(n WireNIC, r *rand.Rand) *WireEnv {
 			}
 		}
 	}
-	for _, lit := range []string{"33:33:00:00:00:01", "33:33:00:00:00:02", "01:00:5e:00:00:fb", "01:00:5e:00:00:fc", "01:00:5e:7f:ff:fa", "ff:ff:ff:ff:06:04"} {
+	for _, lit := range []string{"33:33:00:00:00:01", "33:33:00:00:00:02", "01:00:5e:00:00:01", "01:00:5e:00:00:fb", "01:00:5e:00:00:fc", "01:00:5e:7f:ff:fa", "ff:ff:ff:ff:06:04"} {
 		m, _ := net.ParseMAC(lit)
 		e.MACs[lit] = m
 	}
 	e.IPs["hostip4"], e.IPs["routerip4"], e.IPs["hostlla"] = n.HostIP, n.RouterIP, n.HostLLA
 	e.IPs["zero4"], e.IPs["bcast4"] = netip.IPv4Unspecified(), netip.MustParseAddr("255.255.255.255")
 	e.IPs["invalid"] = netip.Addr{}
-	for _, lit := range []string{"224.0.0.251", "224.0.0.252", "239.255.255.250", "ff02::1", "ff02::2"} {
+	for _, lit := range []string{"224.0.0.1", "224.0.0.251", "224.0.0.252", "239.255.255.250", "ff02::1", "ff02::2"} {
 		e.IPs[lit] = netip.MustParseAddr(lit)
 	}
 	// a unicast address of the home LAN that is neither host, router, network nor broadcast
@@ -120,6 +120,8 @@ func NewWireEnv(n WireNIC, r *rand.Rand) *WireEnv {
 	e.IPs["lla1"], e.IPs["gua1"] = netip.AddrFrom16(l), netip.AddrFrom16(g)
 	e.IPs["sol:lla1"] = netip.AddrFrom16([16]byte{0xff, 0x02, 0, 0, 0, 0, 0, 0, 0, 0, 0, 1, 0xff, l[13], l[14], l[15]})
 	e.MACs["mc6:sol:lla1"] = net.HardwareAddr{0x33, 0x33, 0xff, l[13], l[14], l[15]}
+	e.IPs["sol:gua1"] = netip.AddrFrom16([16]byte{0xff, 0x02, 0, 0, 0, 0, 0, 0, 0, 0, 0, 1, 0xff, g[13], g[14], g[15]})
+	e.MACs["mc6:sol:gua1"] = net.HardwareAddr{0x33, 0x33, 0xff, g[13], g[14], g[15]}
 	return e
 }
 
